@@ -68,6 +68,10 @@ def factor_cases(tier, purpose="C02", prec="d"):
     for pat in C.all_patterns(2, 2):
         for tn in ("t111", "t212", "t122", "t1nn_f1", "t221_f1"): cs.append(fcase(2, 2, pat, tune=tn, umode=um))
         cs.append(fcase(2, 2, pat, colperm=4, permidx=1, tune="t122", umode=2))
+    if not cplx:
+        for pat in C.all_patterns(2, 2):
+            for tn in ("t111", "t122"): cs.append(fcase(2, 2, pat, tune=tn, umode=3))          # u = 0.0 exactly (documented end of the range): a zero diagonal must still not be chosen
+        for pat in (511, C.band(3, 1, 1), C.arrow(3), C.arrow(3, False)) + tuple(C.full_diag_plus(3, 2)[:: (2 if tier == "quick" else 1)]): cs.append(fcase(3, 3, pat, tune="t212", umode=3)); cs.append(fcase(3, 3, pat, tune="t122", umode=3))
     for pat in C.all_patterns(3, 2): cs.append(fcase(3, 2, pat, tune="t122", umode=0))      # tall through the factor routine
     for pat in C.all_patterns(2, 1): cs.append(fcase(2, 1, pat, tune="t111", umode=0))
     for pat in C.all_patterns(1, 1): cs.append(fcase(1, 1, pat, umode=um))
@@ -138,8 +142,19 @@ def check_C03(chk, tier):
 
 
 def check_C04(chk, tier):
-    chk.assumptions += COMMON_ASSUME
+    chk.assumptions += COMMON_ASSUME + ["drivers: ?gssv (all 2x2 patterns, u in {symbolic [0,1], 0}, selected 3x3) and ?gssvx histories incl. SamePattern_SameRowPerm with u = 0 (a remembered pivot that is exactly zero must be abandoned, never divided by)"]
     check_factor(chk, ["C04."], tier, "C04")
+    q = tier == "quick"
+    gs = [c for c in gssv_cases(tier, "d", "C04") if c[0] <= 2] + [gcase(3, pat, tune=tn, umode=3, storage=st) for pat in (511, C.band(3, 1, 1), C.arrow(3), 0b011011011, 0b110110011) for tn, st in (("t212", 0), ("t122", 1))]
+    if not q: gs += [c for c in gssv_cases(tier, "d", "C04") if c[0] == 3][::2]
+    run_phase(chk, "gssv(singularity through the simple driver)/d", H + "h_gssv.c", list(dict.fromkeys(gs)), ["C04."], prec="d", budget_s=90 if q else 1500, bounds=GSSV_BOUNDS, qtimeout_ms=8000 if q else 60000, validate_samples=0)
+    xs = []
+    for pat in C.all_patterns(2, 2)[1:]:
+        xs.append(xcase(2, pat, umode=1 if bin(pat).count("1") >= 3 else 3, growth=1, storage=(pat >> 2) & 1))
+        if C.structural_rank(2, 2, pat) == 2: xs.append(xcase(2, pat, hist=13, umode=3)); xs.append(xcase(2, pat, hist=12, umode=3, storage=1, trans=2))
+    xs += [xcase(3, C.band(3, 1, 1), hist=13, umode=3, symcols=6, tune="t212"), xcase(3, 511, hist=13, umode=3, symcols=4, tune="t122"), xcase(3, 0b011011011, umode=0, symcols=-1, tune="t122")]
+    run_phase(chk, "gssvx(singularity through the expert driver, refactor histories with u = 0)/d", H + "h_gssvx.c", list(dict.fromkeys(xs)), ["C04.", "C06.Udiag.nonzero", "C05.info.range"], prec="d", budget_s=90 if q else 1200, bounds=GSSVX_BOUNDS,
+              qtimeout_ms=8000 if q else 60000, validate_samples=0, key_extra=lambda c: {"storage": str(c[2]), "trans": str(c[16]), "hist": str(c[15])})
 
 
 # ------------------------------------------------------------------------------------------------ C01 simple driver
@@ -167,6 +182,9 @@ def gssv_cases(tier, prec="d", purpose="C01"):
     for pat in C.all_patterns(2, 2):
         for st in (0, 1):
             for tn in ("t111", "t122"): cs.append(gcase(2, pat, storage=st, tune=tn, umode=0 if cplx else 1))
+    if not cplx:
+        for pat in C.all_patterns(2, 2): cs.append(gcase(2, pat, tune="t122", umode=3, storage=(pat >> 1) & 1))     # u = 0.0 exactly
+        for pat in (511, C.band(3, 1, 1), C.arrow(3)): cs.append(gcase(3, pat, tune="t212", umode=3)); cs.append(gcase(3, pat, tune="t122", umode=3, storage=1))
     cs.append(gcase(2, 15, nrhs=2, ldbx=1, tune="t212", umode=2)); cs.append(gcase(2, 15, storage=1, nrhs=2, ldbx=2, tune="t122")); cs.append(gcase(2, 15, nrhs=0))
     p3 = C.all_patterns(3, 3)
     if tier == "quick":
@@ -229,9 +247,9 @@ def check_C01(chk, tier):
 
 
 # ------------------------------------------------------------------------------------------------ expert driver (C05, C06, parts of C12/C13/C08)
-def xcase(n, pat, storage=0, colperm=0, permidx=0, tune="t122", umode=0, symcols=-1, nrhs=1, ldbx=0, hist=1, trans=1, equil=0, refine=0, cond=0, growth=0, lworkmode=0, ldxx=None):
+def xcase(n, pat, storage=0, colperm=0, permidx=0, tune="t122", umode=0, symcols=-1, nrhs=1, ldbx=0, hist=1, trans=1, equil=0, refine=0, cond=0, growth=0, lworkmode=0, ldxx=None, scalemode=0):
     t = T[tune] if isinstance(tune, str) else tune
-    return (n, hex(pat), storage, colperm, permidx) + tuple(t) + (umode, symcols, nrhs, ldbx, hist, trans, equil, refine, cond, growth, lworkmode, ldbx if ldxx is None else ldxx)
+    return (n, hex(pat), storage, colperm, permidx) + tuple(t) + (umode, symcols, nrhs, ldbx, hist, trans, equil, refine, cond, growth, lworkmode, ldbx if ldxx is None else ldxx) + ((scalemode,) if scalemode else ())
 
 
 def gssvx_cases(tier, prec="d", purpose="C05"):
@@ -255,6 +273,14 @@ def gssvx_cases(tier, prec="d", purpose="C05"):
                     cs.append(xcase(2, 15, storage=st, trans=tr, equil=eq, symcols=0, nrhs=2, ldbx=1, ldxx=2, refine=0, cond=1, growth=1))
                     if st == 0 and tr < 3: cs.append(xcase(2, 15, storage=st, trans=tr, equil=eq, symcols=0, nrhs=1, refine=2))
                     cs.append(xcase(3, 511, storage=st, trans=tr, equil=eq, symcols=0, nrhs=2, ldbx=0, ldxx=1, refine=0, cond=1, growth=1, tune="t212"))
+        # badly scaled concrete matrices: equilibration really happens (equed R, C, B), several right-hand sides, ldb != ldx, every Trans x storage; histories ending in FACTORED re-solves with the kept equed
+        for st in (0, 1):
+            for tr in (1, 2, 3):
+                for sm in (1, 2, 3):
+                    cs.append(xcase(3, 511, storage=st, trans=tr, equil=1, symcols=0, nrhs=2, ldbx=1 + (sm & 1), ldxx=2 - (sm & 1), scalemode=sm, tune="t212", growth=1))
+                    if not cplx or not q: cs.append(xcase(4, C.band(4, 1, 2), storage=st, trans=tr, equil=1, symcols=0, nrhs=3, ldbx=0, ldxx=2, scalemode=sm, tune="t122", hist=14, cond=0))
+        if not cplx:
+            for sm in (1, 3): cs.append(xcase(3, C.band(3, 1, 1), equil=1, symcols=0, nrhs=1, refine=2, scalemode=sm, trans=2)); cs.append(xcase(2, 15, equil=1, symcols=2, nrhs=2, ldbx=1, ldxx=0, scalemode=sm, trans=2, storage=sm >> 1))
         if not cplx:
             for pat in (511, C.band(3, 1, 1), C.arrow(3)):
                 for st, tr in ((0, 1), (0, 2), (1, 1), (1, 3)): cs.append(xcase(3, pat, storage=st, trans=tr, tune="t122" if st else "t212"))
@@ -283,6 +309,8 @@ def gssvx_cases(tier, prec="d", purpose="C05"):
             cs.append(xcase(3, C.band(3, 1, 1), hist=h, trans=21, symcols=-1 if h in (14,) and not cplx else 4, tune="t122", colperm=2))
         if not cplx:
             cs.append(xcase(2, 15, hist=13, umode=2)); cs.append(xcase(3, 511, hist=13, symcols=6, tune="t212"))
+            for pat in (15, 0b1101, 0b1011, 0b0111): cs.append(xcase(2, pat, hist=13, umode=3)); cs.append(xcase(2, pat, hist=12, umode=3, storage=1))     # u = 0.0: a remembered / diagonal pivot that is exactly zero must be abandoned
+            cs.append(xcase(3, C.band(3, 1, 1), hist=13, umode=3, symcols=6, tune="t212")); cs.append(xcase(3, 511, hist=134, trans=121, umode=3, symcols=4, tune="t122"))
             for n_, pat in ((5, C.dense(5, 5)), (6, C.band(6, 2, 2))):
                 for h in (134, 124, 1234): cs.append(xcase(n_, pat, hist=h, trans=1213, symcols=1 << (n_ - 1), tune="t1nn_f1", equil=0, refine=0))
         if not q:
@@ -325,9 +353,10 @@ def check_C18(chk, tier):
                         "worker routines and allocators have assert(false) bodies generated at goto level: reaching any of them is reported as a failure (this is how 'no work started / no allocation retained' is decided)",
                         "CBMC 6.11 + CaDiCaL; bit-precise doubles for the scale-factor tests; NaN scale factors excluded (NaN is not 'non-positive')"]
     hs = []
-    for prec in (["d"] if tier == "quick" else ["d", "s", "z", "c"]):
+    for prec in ["d", "s", "z", "c"]:
         mach = {"d": "dmach.c", "z": "dmach.c", "s": "smach.c", "c": "smach.c"}[prec]
         for r, (nm, srcs) in C18_ROUTINES.items():
+            if tier == "quick" and prec != "d" and r not in (1, 2, 3): continue     # quick: the three drivers in every precision, the other routines in double
             src = [E1H + "h18.c", REPO + "/SRC/util.c", REPO + "/SRC/" + mach] + [REPO + "/SRC/" + s_.format(p=prec) for s_ in srcs]
             hs.append(e1.Harness("c18_%s_%s" % (prec, nm), src, defs=["-DPREC_" + prec.upper(), "-DROUTINE=%d" % r], unwind=3, unwindset={"same_bytes.0": 50}, timeout=900))
     e1.run_harnesses(chk, hs, "C18 argument screening", "n <= 2, nrhs <= 2, lda <= 3, every enum/tag/dimension/lwork/equed/scale-factor corruption; unwind 3 (all loops bounded by n <= 2)")
@@ -617,7 +646,7 @@ def check_C13(chk, tier):
 def check_C16(chk, tier):
     chk.assumptions += ["stdio replaced at token level: fgets/sscanf/fscanf/scanf deliver SYMBOLIC header fields and (i, j, value) triples to the real reader; text-to-number conversion (libc) assumed",
                         "well-formed file: 1-based indices in range, each position listed once, symmetric files store the lower triangle (diagonal entries present or absent, any order)",
-                        "Harwell-Boeing / Rutherford-Boeing fixed-width text layouts are NOT covered by a solver-based check in this build (character-level file model not finished): C16 is claimed for the coordinate readers (?readMM, ?readtriple) only; see DESIGN 10"]
+                        "Harwell-Boeing / Rutherford-Boeing readers: character-level file model (fgets/fgetc/fscanf %Nc semantics on a byte array); the card layout, edit descriptors, records per line and field widths are ENUMERATED concrete layouts (incl. full 80-column records, D exponents, kP scale factors, lower-case descriptors, an RHS block to skip, pattern-only files); every pointer/index/value field stands for a symbolic number; a conversion must be applied exactly at a field start with the field terminated at its declared width"]
     q = tier == "quick"; hs = []
     NBq, NEq = (3, 2) if q else (3, 3)
     for prec in (["d", "z"] if q else list("dszc")):
@@ -632,7 +661,49 @@ def check_C16(chk, tier):
                 if prec in "dz" or not q:
                     hs.append(e1.Harness("c16_%sreadtriple_n%d_e%d" % (prec, n, nnz), [E1H + "h16mm.c", REPO + "/SRC/%sreadtriple.c" % prec] + mem,
                                          defs=[P, "-DREADER=2", "-DNB=%d" % NBq, "-DNE=%d" % max(NEq, 1), "-DFIX_N=%d" % n, "-DFIX_NNZ=%d" % nnz, "-DFIX_SYM=0"], unwind=18, timeout=1500, flags=e1.BASE_FLAGS))
-    e1.run_harnesses(chk, hs, "C16 coordinate readers", "n <= %d, <= %d file entries in any order with symbolic positions and values, general and symmetric (diagonal present/absent), 1-based; CBMC bounds/pointer checks on every array the reader allocates" % (NBq, NEq))
+    # fixed-width text readers (Harwell-Boeing, Rutherford-Boeing): character-level file model, layouts enumerated, field contents symbolic
+    import hbgen
+    I = {"i5x16": (16, 5, "(16I5)"), "i5x2": (2, 5, "(2I5)"), "i4x3": (3, 4, "(3i4)"), "i10x8": (8, 10, "(8I10)"), "i2x40": (40, 2, "(40I2)"), "i8x10": (10, 8, "(10I8)"), "i3x1": (1, 3, "(1I3)")}
+    V = {"e15x5": (5, 15, "(5E15.8)", "E"), "e20x4": (4, 20, "(4E20.12)", "E"), "d20x4": (4, 20, "(4D20.12)", "D"), "e16x5": (5, 16, "(1P5E16.8)", "E"), "f10x8": (8, 10, "(8F10.3)", ""), "d25x3": (3, 25, "(1P3D25.16)", "D"),
+         "e20x2": (2, 20, "(2e20.12)", "E"), "f13x6": (6, 13, "(1P6F13.6)", ""), "e26x1": (1, 26, "(1E26.18)", "E")}
+    # general files: column pointers, row indices and values all symbolic. Symmetric files: CBMC does not get through FormFullA with a symbolic pattern
+    # (measured: > 10 GB at n = 2), so the lower-stored PATTERN is enumerated (every lower-triangular pattern with n <= 3, diagonal entries present or
+    # absent) and only the values are symbolic.
+    def lower_patterns(n):
+        pos = [(i, j) for j in range(n) for i in range(j, n)]; out = []
+        for bits in range(1, 1 << len(pos)):
+            ent = [pos[k] for k in range(len(pos)) if (bits >> k) & 1]; cp = [1]; ri = []
+            for j in range(n): col = [i + 1 for (i, jj) in ent if jj == j]; ri += col; cp.append(cp[-1] + len(col))
+            out.append((tuple(cp), tuple(ri)))
+        return out
+    hbc = []   # (reader, n, nnz, sym, ptr, ind, val, rhscrd, pattern_only, cp, ri)
+    for rd in ("hb", "rb"):
+        hbc += [(rd, 3, 4, 0, "i5x2", "i4x3", "e20x2", 0, 0, None, None), (rd, 2, 3, 0, "i5x16", "i5x16", "e15x5", 0, 0, None, None), (rd, 3, 5, 0, "i3x1", "i5x2", "d20x4", 0, 0, None, None),
+                (rd, 3, 6, 0, "i5x16", "i5x16", "e20x4", 0, 0, None, None), (rd, 3, 9, 0, "i2x40", "i10x8", "f10x8", 0, 0, None, None), (rd, 2, 2, 0, "i2x40", "i2x40", "d25x3", 0, 0, None, None)]
+        lay = [("i5x2", "i4x3", "e20x2"), ("i10x8", "i8x10", "f10x8"), ("i2x40", "i2x40", "d25x3"), ("i5x16", "i5x16", "e16x5")]
+        for n_ in (1, 2, 3):
+            for k_, (cp, ri) in enumerate(lower_patterns(n_)):
+                if q and n_ == 3 and k_ % 3 and len(ri) not in (1, 6): continue
+                pi, ii, vv = lay[k_ % len(lay)]; hbc.append((rd, n_, len(ri), 1, pi, ii, vv, 0, 0, cp, ri))
+        if not q: hbc += [(rd, 3, 4, 0, pi, pi, vv, 0, 0, None, None) for pi in I for vv in V] + [(rd, 9, 10, 0, "i10x8", "i10x8", "e20x4", 0, 0, None, None), (rd, 9, 12, 0, "i8x10", "i2x40", "e16x5", 0, 0, None, None), (rd, 4, 6, 0, "i5x2", "i5x2", "e26x1", 0, 0, None, None)]
+    hbc += [("hb", 3, 4, 0, "i5x2", "i4x3", "e20x2", 1, 0, None, None), ("hb", 3, 4, 0, "i5x2", "i4x3", "e20x2", 0, 1, None, None), ("hb", 9, 9, 0, "i10x8", "i10x8", "e20x4", 0, 0, None, None),
+            ("hb", 3, 5, 1, "i5x16", "i5x16", "e16x5", 1, 0, (1, 4, 5, 6), (1, 2, 3, 3, 3))]
+    HBFLAGS = e1.BASE_FLAGS + ["--max-field-sensitivity-array-size", "128", "--object-bits", "12"]
+    for prec in (["d", "z"] if q else list("dszc")):
+        P = "-DPREC_" + prec.upper(); mem = [REPO + "/SRC/%smemory.c" % prec, REPO + "/SRC/memory.c"]
+        for ci, (rd, n, nnz, sym, pi, ii, vv, rhs, pat_only, cp, ri) in enumerate(dict.fromkeys(hbc)):
+            if prec in "zc" and q and ci % 2: continue
+            nm = "c16_%sread%s_n%d_e%d_%s_%s_%s_%s%s%s" % (prec, rd, n, nnz, ("sym%d" % ci) if sym else "gen", pi, ii, vv, "_rhs" if rhs else "", "_pat" if pat_only else "")
+            cdir = os.path.join(chk.scratch, "hbcase", nm)
+            hbgen.write_case(cdir, reader=rd, n=n, nnz=nnz, sym=bool(sym), cplx=prec in "zc", ptr=I[pi], ind=I[ii], val=V[vv], rhscrd=rhs, pattern_only=bool(pat_only))
+            nval = 0 if pat_only else (2 * nnz if prec in "zc" else nnz); big = 2 * nnz + n + 6
+            uws = {"fgets.0": 101, "%sDumpLine.0" % prec: 90, "field_len.0": 30, "parse_int.0": 24, "parse_int.1": 24, "__isoc99_fscanf.0": 4, "__isoc99_fscanf.1": 22, "atoi.0": n + 3, "atoi.1": nnz + 2, "atof.0": nval + 2, "atof.1": V[vv][1] + 2,
+                   "%sParseIntFormat.0" % prec: 24, "%sParseIntFormat.1" % prec: 24, "%sParseFloatFormat.0" % prec: 24, "%sParseFloatFormat.1" % prec: 24, "%sParseFloatFormat.2" % prec: 24,
+                   "ReadVector.0": 42, "ReadVector.1": big, "%sReadValues.0" % prec: 28, "%sReadValues.1" % prec: 42, "%sReadValues.2" % prec: big, "%sread%s.0" % (prec, rd): 7}
+            for k_ in range(24): uws["main.%d" % k_] = big
+            fix = ["-DFIX_CP={%s}" % ",".join(map(str, cp)), "-DFIX_RI={%s}" % ",".join(map(str, ri + (0,)))] if cp else []
+            hs.append(e1.Harness(nm, [E1H + "h16hb.c", REPO + "/SRC/%sread%s.c" % (prec, rd)] + mem, defs=[P, "-DREADER=%d" % (1 if rd == "hb" else 2)] + fix, unwind=max(nnz, n) + 2, unwindset=uws, timeout=1500, flags=HBFLAGS, incs=[cdir]))
+    e1.run_harnesses(chk, hs, "C16 coordinate + fixed-width text readers", "coordinate: n <= %d, <= %d file entries in any order with symbolic positions and values, general and symmetric (diagonal present/absent), 1-based; HB/RB: n <= 3 (9 in two layouts), <= 9 stored entries, enumerated layouts; general files: symbolic pointer/index/value fields; symmetric files: every lower-stored pattern n <= 3 (diagonal present/absent) enumerated, values symbolic; CBMC bounds/pointer checks on every array the reader allocates" % (NBq, NEq))
 
 
 # ------------------------------------------------------------------------------------------------ C15 incomplete LU
